@@ -135,7 +135,9 @@ def multi_node(chk):
 
 def run(chk):
     rng = random.Random(chk.seed)
-    chk.lean = core.lean_build(["BromeliaVerif.Properties.C07"])
+    import gen_psm
+    chk.tie_notes += gen_psm.generate()[1]       # tie (a): statemachine.py translated to Gen/PsmGen.lean on every run
+    chk.lean = core.lean_build(["BromeliaVerif.Properties.C07", "BromeliaVerif.Properties.C06Gen"])
     chk.rule = ("the histories of C06 (breadth-first over all event sequences on the implementation's state + random histories) and "
                 "request-burst histories: 1..5 back-to-back CER/DWR (valid and invalid) with boundary, repeated and random 32-bit "
                 "identifiers, interleaved with other traffic, watchdog timeouts and submits; connections ended by DPR / stop / "
